@@ -54,6 +54,22 @@ func langKey(l ref.Lang) string {
 	return strings.Join(ks, "\x1e")
 }
 
+// kept is the specification parsed for the previous case with its levels as recorded then: a specification a caller
+// holds on to must keep its levels when another one is parsed afterwards.
+var kept struct {
+	sp     *spec.Spec
+	levels string
+	src    string
+}
+
+func renderLevels(sp *spec.Spec) string {
+	var b strings.Builder
+	for i, l := range sp.Precedences {
+		fmt.Fprintf(&b, "level %d: %v\n", i, l)
+	}
+	return b.String()
+}
+
 func checkModel(m *ref.SpecModel, src string) error {
 	var sp *spec.Spec
 	var err error
@@ -63,6 +79,14 @@ func checkModel(m *ref.SpecModel, src string) error {
 	if err != nil {
 		return fmt.Errorf("well-formed specification rejected: %v\nspecification:\n%s", err, src)
 	}
+	if kept.sp != nil {
+		if now := renderLevels(kept.sp); now != kept.levels {
+			was, prevSrc := kept.levels, kept.src
+			kept.sp = nil
+			return fmt.Errorf("parsing this specification changed the levels recorded for the specification parsed before it:\n--- recorded then:\n%s--- now:\n%s--- the earlier specification:\n%s\n--- this specification:\n%s", was, now, prevSrc, src)
+		}
+	}
+	kept.sp, kept.levels, kept.src = sp, renderLevels(sp), src
 	var dirs []*ref.Decl
 	for _, d := range m.Decls {
 		if d.Kind == "directive" {
